@@ -444,9 +444,19 @@ def build_hsm(case, world, cls, extra_kwargs=None, model=None):
     for path, what, cbs in later:
         for cb in cbs:
             (machine.on_enter if what == 'enter' else machine.on_exit)(sname(list(path)), cb)
+    late = case.get('late_event')        # (k, e): the global transitions of event e are added after the k-th call
+    held = []
     for e, ts in m['events']:
         for t in ts:
+            if late is not None and e == late[1]:
+                held.append((e, t))
+            else:
+                machine.add_transition(**tdict(e, t))
+
+    def add_late():
+        for e, t in held:
             machine.add_transition(**tdict(e, t))
+    machine._verif_add_late = add_late
     return machine, model
 
 
@@ -523,7 +533,9 @@ def impl_hsm(case):
     world.current_model = model
     init_cfg = world.state_of(model)
     out = []
-    for k, e, a in case['history']:
+    for j, (k, e, a) in enumerate(case['history']):
+        if case.get('late_event') is not None and j == case['late_event'][0]:
+            machine._verif_add_late()       # the machine is reconfigured after events have been processed
         tok = Token(a)
         world.items = []
         name = 'e%d' % e
